@@ -305,7 +305,10 @@ def _r18_15(prog: Program, res: Result) -> None:
                 for w in ppa.worlds_at(r):
                     facts = [subst(fct, canon_p) for fct in w.facts]
                     if not (isinstance(r.value, ast.Constant) and r.value.value is True):
-                        facts.append(subst(ppa.formula(r.value, w, True), canon_p))
+                        answer = subst(ppa.formula(r.value, w, True), canon_p)
+                        if not relevant(answer):
+                            continue    # `return <something else>`: whether that is True is not said by the tests the two functions share
+                        facts.append(answer)
                     yes.append(_And(*[fct for fct in facts if relevant(fct)]))
         goal = _Or(*yes) if yes else ("or", ())
         missed = []
@@ -639,8 +642,14 @@ def _r18_13_census(prog: Program, res: Result) -> None:
     for r in walk_own(tr.node):
         if isinstance(r, ast.Return) and isinstance(r.value, ast.Constant) and r.value.value is None:
             t = parent(r)
-            if isinstance(t, ast.If) and isinstance(t.test, ast.Compare) and isinstance(t.test.ops[0], ast.NotIn) and "all" in norm(t.test.comparators[0]).lower():
-                sites.append(r)
+            # `if <name> not in X: return None` where X is a local set filled from the elements of matched nodes (whatever it is called)
+            if isinstance(t, ast.If) and isinstance(t.test, ast.Compare) and isinstance(t.test.ops[0], ast.NotIn) and isinstance(t.test.comparators[0], ast.Name) \
+                    and isinstance(t.test.left, ast.Name) and t.test.left.id in tr.all_params:
+                x_ = t.test.comparators[0].id
+                filled = [c for c in ast.walk(tr.node) if isinstance(c, ast.Call) and isinstance(c.func, ast.Attribute) and c.func.attr in ("update", "add")
+                          and isinstance(c.func.value, ast.Name) and c.func.value.id == x_ and (".elts" in norm(c) or ".args[0]" in norm(c))]
+                if filled:
+                    sites.append(r)
     if not sites:
         res.undecided("R18.13", tr.loc(), tr.fq, "negative answer of the export model", "`if name not in <filter>: return None` not found")
         return
@@ -648,7 +657,7 @@ def _r18_13_census(prog: Program, res: Result) -> None:
     for r in sites:
         worlds = pa.worlds_at(r)
         ok = bool(names) and bool(worlds) and all(any(f[0] == "lit" and not f[2] and any(plain(f[1]).startswith(n_ + "(") for n_ in names) for f in w.facts) for w in worlds)
-        res.decide(ok, "R18.13", tr.loc(r), tr.fq, f"{short(parent(r).test, 50)} -> not exported # census of the places that spell __all__",
+        res.decide(ok, "R18.13", tr.loc(r), tr.fq, "name not in <names read from __all__> -> not exported # census of the places that spell __all__",
                    "answered only when every mention of __all__ was one of the statements the model reads" if ok else
                    "the model answers `not exported` from the statements it understands and never asks whether there are others: with `__all__ += ['name']` in the module "
                    "the name is taken for not exported, the star import is expanded without it and the name is unbound")
